@@ -12,7 +12,7 @@ Rule instances are the (entry, member) pairs; members that need a different argu
 in the tables below with a one-line reason each (confirmed by reading the code).
 """
 from ..effects import Effects, FnAnalysis, _leaf_effects, obj_key, path_str, fields_of, first_index
-from ..sir import pp, strip, walk, AnalysisBroken
+from ..sir import pp, strip, walk, resolve_alias, AnalysisBroken
 from .. import model
 
 MAX_DEPTH = 8
@@ -293,7 +293,7 @@ def full_range_loops(fn):
                 out.append((n, n["var"]["d"], n["var"]["n"]))
         if n.get("k") == "for" and n.get("c") is not None:
             c = strip(n["c"])
-            if c.get("k") == "binop" and c["op"] == "<" and pp(strip(c["rhs"])).endswith("size()"):
+            if c.get("k") == "binop" and c["op"] == "<" and pp(resolve_alias(fn, c["rhs"])).endswith("size()"):
                 l = strip(c["lhs"])
                 if l.get("k") == "ref":
                     out.append((n, l.get("d"), l.get("n")))
@@ -338,13 +338,31 @@ def audit(db, eff, chk, uname):
         if ops[op]["in_flowdir"] != "undefined":
             assumed = set(router_tables)     # produced by the preceding router in the same call
 
-        def tracked(key, assumed=assumed):
+        # configuration members of the implementation object, recognised by TYPE: the shared pointer
+        # to the user's operator and owning pointers to helper objects audited separately
+        impl_config = set(IMPL_CONFIG)
+        seen_recs = set()
+
+        def collect(tid):
+            rec = unit.rec_by_type.get(tid)
+            if rec is None or tid in seen_recs:
+                return
+            seen_recs.add(tid)
+            for fld in rec["fields"]:
+                ts = unit.type(fld["t"]).replace("const ", "")
+                if ts.startswith("std::shared_ptr<") or ts.startswith("std::unique_ptr<"):
+                    impl_config.add(fld["n"])
+            for b in rec.get("bases", []):
+                collect(b["t"])
+        collect(ap.d.get("clst"))
+
+        def tracked(key, assumed=assumed, impl_config=impl_config):
             if len(key) != 2 or key[1][0] != "f":
                 return False
             m = key[1][1]
             if key[0] == ("this",):
                 # members of the operator implementation object persist between calls as well
-                return m not in IMPL_CONFIG
+                return m not in impl_config
             if key[0] != ("p", 0):
                 return False
             return m in W and m not in assumed
